@@ -66,8 +66,8 @@ fn utf8_reason(rng: &mut Rng, len: usize) -> Vec<u8> {
     s.into_bytes()
 }
 
-const U32_CODES: [u32; 9] = [0, 1, 255, 256, 65535, 65536, 0x7fff_ffff, 0x8000_0000, u32::MAX];
-const VARINT_CODES: [u64; 10] = [0, 1, 63, 64, 16383, 16384, (1 << 30) - 1, 1 << 30, (1 << 62) - 1, 0x100];
+const U32_CODES: [u32; 17] = [0, 1, 255, 256, 65535, 65536, 0x7fff_ffff, 0x8000_0000, u32::MAX, 0x33, 0x100, 0x104, 0x10c, 0x200, 0x170d_7b68, 0x3994_bd84, 0x10a];
+const VARINT_CODES: [u64; 18] = [0, 1, 63, 64, 16383, 16384, (1 << 30) - 1, 1 << 30, (1 << 62) - 1, 0x100, 0x33, 0x104, 0x10c, 0x200, 0x170d_7b68, 0x3994_bd84, 0x52e4_a40f_a8db, 0x52e5_ac98_3162];
 const REASON_LENS: [usize; 9] = [0, 1, 2, 63, 64, 255, 1000, 1023, 1024];
 
 pub fn gen_plan(seed: u64, index: usize, _tier: Tier) -> Plan {
